@@ -404,6 +404,88 @@ def run_deep(arg):
     return bad, 0
 
 
+def _run_fault_parents(arg):
+    """parents() / parent() of the deepest process of a chain while processes of the chain vanish just before given accesses of
+    the ONE call (an ancestor, then possibly the caller itself), or while the parent's pid is taken over by a younger process:
+    the answer is a leading part of the chain of ancestors as it was, and an error is about the caller and nobody else"""
+    seed, op, plan = arg
+    import psutil
+    parents = [0, 1, 2, 3]
+    w = build_world(parents, [0, 1, 2, 3], seed)
+    use_world(w)
+    w.logging = False
+    caller = 4
+    pr = psutil.Process(caller)
+    chain = [3, 2, 1]
+    start0 = {p_: w.procs[p_].start for p_ in w.procs}
+    cnt = [0]
+    plan_d = {int(i): d for i, d in plan}
+    done = []
+
+    def hook(world, kind, subj, pid):
+        d = plan_d.get(cnt[0])
+        cnt[0] += 1
+        if d is None:
+            return
+        what, victim = d.split(":")
+        victim = int(victim)
+        if victim in world.procs:
+            old = world.procs[victim]
+            world.vanish(victim)
+            done.append(d)
+            if what == "recycle":
+                world.spawn(victim, ppid=1, comm=b"younger", start=old.start + 5000)
+            snaps.append(chain_now(world))
+    snaps = []
+
+    def chain_now(world):
+        out_, x, seen_ = [], caller, set()
+        while x in world.procs and world.procs[x].ppid in world.procs and world.procs[x].ppid not in seen_ and world.procs[x].ppid != x:
+            x = world.procs[x].ppid
+            seen_.add(x)
+            out_.append(x)
+        return out_
+    w.hook = hook
+    if op == "parents":
+        got = outcome(lambda: [(x.pid, x.create_time()) for x in pr.parents()])
+    else:
+        got = outcome(lambda: (lambda x: None if x is None else [(x.pid, x.create_time())])(pr.parent()))
+    w.hook = None
+    bad = []
+    from vf.simk.world import CLK_TCK
+    ct0 = {p_: start0[p_] / CLK_TCK + w.btime for p_ in start0}
+    caller_gone = any(d.endswith(":%d" % caller) for d in done)
+    if got[0] != "ok":
+        if got[1] not in ("NoSuchProcess", "ZombieProcess", "AccessDenied"):
+            bad.append(("fault:%s-leaked:%s" % (op, got[1]), "%s() raised %r under %r" % (op, got[:2], done)))
+        elif got[2].get("pid") != caller:
+            bad.append(("fault:%s-raised-for-another-pid" % op, "%s() of pid %d raised %s about pid %r (events %r)" % (op, caller, got[1], got[2].get("pid"), done)))
+        elif got[1] == "NoSuchProcess" and not caller_gone:
+            bad.append(("fault:%s-NoSuchProcess-for-a-live-caller" % op, "events %r" % (done,)))
+    elif got[1] is not None:
+        pids_ = [x[0] for x in got[1]]
+        # (orphans are re-parented by the kernel: the chain as it is after the events is as good an answer as the one before)
+        took_over = any(d.startswith("recycle") for d in done)
+        # (once a pid of the chain has been taken over, what is read through it afterwards is the newcomer's: only the head of the
+        #  walk and the creation times are judged then)
+        if took_over:
+            ok_shape = not pids_ or pids_[0] in (chain[0], (snaps[-1] or [None])[0])
+        else:
+            ok_shape = pids_ == chain[:len(pids_)] or any(pids_ == sn[:len(pids_)] for sn in snaps)
+        if not ok_shape:
+            bad.append(("fault:%s-not-a-leading-part-of-the-chain" % op, "got %r, chain %r, events %r" % (pids_, chain, done)))
+        for p_, ct in got[1]:
+            if p_ in ct0 and abs(ct - ct0[p_]) > 1e-6:
+                bad.append(("fault:%s-returns-the-process-that-took-over-the-pid" % op,
+                            "%s() returned pid %d with creation time %r: the ancestor of that pid started at %r; the pid was taken over by a "
+                            "younger process during the call (events %r)" % (op, p_, ct, ct0[p_], done)))
+    return {"n": cnt[0], "bad": bad}
+
+
+def run_fault_parents(arg):
+    return _timed(_run_fault_parents, arg, lambda e, a: {"n": 0, "bad": [("does-not-terminate", "%s (%r)" % (e, a))]})
+
+
 def fault_part(ctx):
     jobs = []
     for parents in ([0, 1, 1, 2], [0, 1, 2, 3], [0, 1, 1, 1]):
@@ -426,7 +508,25 @@ def fault_part(ctx):
     for j, r in zip(jobs, ctx.pmap(run_fault, jobs)):
         for cause, msg in r["bad"]:
             viols.append({"cause": cause, "msg": msg, "case": {"fault": [j[0], j[2], j[3], j[4]]}})
-    return len(jobs), viols
+    pj = []
+    for op in ("parents", "parent"):
+        base = run_fault_parents((ctx.seed, op, []))
+        pj.append((ctx.seed, op, []))
+        for i in range(base["n"] + 2):
+            for victim in (3, 2, 4):
+                for what in ("vanish", "recycle"):
+                    if what == "recycle" and victim == 4:
+                        continue
+                    first = [[i, "%s:%d" % (what, victim)]]
+                    pj.append((ctx.seed, op, first))
+                    if victim != 4 and what == "vanish":
+                        r1 = run_fault_parents((ctx.seed, op, first))
+                        for j in range(i + 1, r1["n"] + 2):
+                            pj.append((ctx.seed, op, first + [[j, "vanish:4"]]))
+    for j, r in zip(pj, ctx.pmap(run_fault_parents, pj)):
+        for cause, msg in r["bad"]:
+            viols.append({"cause": cause, "msg": msg, "case": {"fault_parents": [j[1], j[2]]}})
+    return len(jobs) + len(pj), viols
 
 
 def run(ctx):
@@ -500,6 +600,9 @@ def run(ctx):
 
 
 def replay(ctx, case):
+    if "fault_parents" in case:
+        r = run_fault_parents((ctx.seed, case["fault_parents"][0], case["fault_parents"][1]))
+        return {"violated": bool(r["bad"]), "viols": r["bad"]}
     if "fault" in case:
         f = case["fault"]
         r = run_fault((f[0], ctx.seed, f[1], f[2], f[3]))
